@@ -538,6 +538,33 @@ func (c *Ctx) resolveDenseRoles() {
 			r.offset = n
 		}
 	}
+	// a store with further fields (a cache, say): the bin array is the slice whose element the weighted add increases,
+	// the offset the receiver field subtracted from the index in that element's position
+	if f := c.P.DeclaredMethod(dense, "AddWithCount"); f != nil && (len(ints) != 3 || nSlices(dense) != 1) {
+		ps, _ := pathsOf(c.P, f, nil, execOpts{MaxVisits: 1, Pure: c.Mod.PureCall, InlineCallee: func(g *ssa.Function) bool { return inModule(g) && g.Parent() == nil }})
+		for _, p := range ps {
+			for _, e := range p.Effects {
+				if e.Kind != "store" || e.Addr.Op != "index" || !e.Val.isBin("+") {
+					continue
+				}
+				b := e.Addr.Args[0].unver()
+				if b.Op != "field" || !b.Args[0].isParam(0) {
+					continue
+				}
+				off := ""
+				e.Addr.Args[1].walk(func(x *Term) bool {
+					if x.isBin("-") && x.Args[1].unver().Op == "field" && x.Args[1].unver().Args[0].isParam(0) {
+						off = x.Args[1].unver().Sym
+					}
+					return true
+				})
+				if off != "" {
+					r.bins, r.offset = b.Sym, off
+					ints = []string{r.minIndex, r.maxIndex, r.offset}
+				}
+			}
+		}
+	}
 	if r.bins == "" || r.count == "" || r.minIndex == "" || r.maxIndex == "" || r.offset == "" || len(ints) != 3 {
 		dr.err = fmt.Sprintf("dense store roles unresolved: bins=%q count=%q min=%q max=%q offset=%q ints=%v", r.bins, r.count, r.minIndex, r.maxIndex, r.offset, ints)
 		return
@@ -782,4 +809,15 @@ func derefType(t types.Type) types.Type {
 		return p.Elem()
 	}
 	return t
+}
+
+
+func nSlices(t *types.Named) int {
+	n := 0
+	for _, f := range structFields(t) {
+		if _, ok := f.Type().Underlying().(*types.Slice); ok {
+			n++
+		}
+	}
+	return n
 }
